@@ -33,6 +33,7 @@ Bad == F("Correlated", {i \in Lines : ~CorrelatedL(i)})
   \cup F("SubscriptionsDirect", {i \in Steps : ~SubscribeP(St(i-1), St(i), Tr[i].act)})
   \cup F("CarriedNotWritten", {i \in Steps : ~CarriedP(St(i-1), St(i), Tr[i].act)})
   \cup F("CarriedGated", {i \in Steps : ~CarryGatedP(St(i-1), St(i), Tr[i].act)})
+  \cup F("NoDataBeforeAccept", {i \in Steps : ~UnacceptedQuietP(St(i-1), St(i), Tr[i].act)})
   \cup F("HandlersAgree", {i \in Lines : ~Tr[i].st.sameh})
   \cup F("NoPanic", {i \in Lines : Len(Tr[i].skip) >= 5 /\ SubSeq(Tr[i].skip, 1, 5) = "PANIC"})
 ASSUME JsonSerialize("props_result.json", [lines |-> Len(Tr), bad |-> Bad])
